@@ -1,7 +1,8 @@
 import GlueVerif.Sexp
 import GlueVerif.Model.ArrayUtil
 import GlueVerif.Model.Stats
-/-! Line-protocol driver for C10 (statistics and histograms). -/
+import GlueVerif.Model.StatsSeq
+/-! Line-protocol driver for C10 (statistics and histograms; sequences of calls on shared objects). -/
 open GlueVerif GlueVerif.Sexp GlueVerif.ArrayUtil GlueVerif.Stats
 
 def bad (msg : String) : String := driverError msg
@@ -116,6 +117,107 @@ def pyResult? : Sexp → Option (List Nat × List Val)
 
 def redFlags (nd : Nat) (axes : List Nat) : List Bool := (List.range nd).map fun d => axes.contains d
 
+/-- Verdict on one call: the fields of a driver answer. -/
+structure Verdict where
+  impl : Sexp
+  ok : Bool
+  implok : Bool
+  p : Bool
+  br : String
+  extra : List Sexp := []
+
+def Verdict.render (v : Verdict) : String :=
+  Sexp.toString (Sexp.list ([.atom "r", .list [.atom "impl", v.impl],
+    .list [.atom "ok", ofBool v.ok], .list [.atom "implok", ofBool v.implok],
+    .list [.atom "p", ofBool v.p], .list [.atom "br", .atom v.br]] ++ v.extra))
+
+def parseView (sh : List Nat) (viewE : Sexp) : Option (ViewKind × List VItem) :=
+  match viewE with
+  | .atom "N" => some (.none, fullView sh)
+  | .atom "E" => some (.ellipsis, fullView sh)
+  | .list (.atom "v" :: items) => do
+    let raw ← items.mapM rawItem?
+    some (.tuple, ← normView sh raw)
+  | _ => none
+
+def parseSelM (sh : List Nat) (data : Idx → Val) (selE : Sexp) : Option SelM :=
+  match selE with
+  | .atom "N" => some .none
+  | .list (.atom "slice" :: ts) => do
+    let ts ← ts.mapM triple?
+    let sub ← normSlices sh ts
+    some (.slice sub)
+  | e => (sel? e).map fun s => .mask (s.eval sh data)
+
+def parseAxis (nd : Nat) (axisE : Sexp) : Option (AxisKind × List Bool) :=
+  match axisE with
+  | .atom "N" => some (.none, List.replicate nd true)
+  | .list (.atom "t" :: as) => do
+    let as ← as.mapM toNat?
+    if as.all (· < nd) then some (.tuple, redFlags nd as) else none
+  | e => do
+    let a ← e.toNat?
+    if a < nd then some (.int, redFlags nd [a]) else none
+
+/-- The oracle for one statistic call.  `impl` is the model's result for the call (the pure
+`implStat` for a single call; the heap program's result inside a sequence); the Spec verdict `ok` is
+about the python output and never looks at `impl`. -/
+def judgeStat (cfg : Cfg) (sh : List Nat) (data : Idx → Val) (sel : SelM) (vk : ViewKind)
+    (v : List VItem) (ak : AxisKind) (red : List Bool) (nmax : Nat) (dt : DType) (impl : Result)
+    (pyout : Sexp) : Verdict :=
+  let st := cfg.stat
+  let spec := specStat cfg sh data sel vk v red
+  let specIdx := allIdx spec.shape
+  let specCells := specIdx.map spec.cell
+  -- the kept values of every cell of the specification (`spec.cell k = reduce st (vals k)`,
+  -- theorem `spec_cell_reduce`): the acceptance radius is computed from them
+  let specVals := specIdx.map fun k => specCellVals cfg sh data sel vk v red k
+  let implCells := (allIdx impl.shape).map impl.cell
+  let implok := impl.shape == spec.shape && implCells == specCells
+  let py := pyResult? pyout
+  let ok := match py with
+    | some (psh, pcs) =>
+      psh == spec.shape && pcs.length == specVals.length &&
+        (pcs.zip specVals).all fun p => specAccept st p.2 p.1
+    | none => false
+  -- the model's prediction (exact arithmetic); where the model agrees with the specification
+  -- a python value that the specification accepts is echoed, so that comparison (a) is the
+  -- same acceptance rule
+  let shown := match py with
+    | some (psh, pcs) =>
+      if psh == impl.shape && impl.shape == spec.shape && pcs.length == implCells.length then
+        (pcs.zip (implCells.zip (specCells.zip specVals))).map fun p =>
+          if p.2.1 == p.2.2.1 && specAccept st p.2.2.2 p.1 then p.1 else p.2.1
+      else implCells
+    | none => implCells
+  let size := prod sh
+  let nRed := (red.filter id).length
+  let chunked := vk == .none && ak == .tuple && nRed > 0 && nRed + 1 == sh.length &&
+    size > nmax && !sel.isSlice
+  let vsh := viewShape' v
+  let nanOk := codeNanAware cfg sel vk || noNanInScope data sel vk v
+  -- hypothesis of `stat_refines_spec_partial`
+  let inP := statP cfg sh data sel vk v red
+  let br :=
+    if !nanOk then "plain-nan" else if !inP then "outside-P" else
+    if chunked then (if sel.isNone then "chunked-nosel" else "chunked-masked")
+    else match sel with
+      | .none => "nosel"
+      | .slice _ => if vk == .none then "slice-shortcut" else "masked-slice-state"
+      | .mask _ => "masked"
+  let br2 := match sel with
+    | .none => ""
+    | _ =>
+      if chunked || (sel.isSlice && vk == .none) then "" else
+      let vm : Idx → Bool := fun j => inRange j vsh && sel.maskFn (viewIdx v j)
+      if !((allIdx vsh).any vm) then "-empty"
+      else if !allStep1 v then "-bail"
+      else if keptShape red vsh == [] then "-scalar"
+      else if subShape (bbox vsh vm) == vsh then "-fullbox" else "-pad"
+  let pre := if dt == .f8 then "" else dtypeName dt ++ ":"
+  { impl := resultSexp impl.shape shown, ok := ok, implok := implok, p := inP,
+    br := pre ++ (if inP then br ++ br2 else br) }
+
 /-- `(sh data sel axis finite positive stat view nmax [dtype])`; the storage dtype (default `f8`)
 only restricts the values that may occur — the oracle never looks at it again. -/
 def stepStatD (shE dataE selE axisE finE posE statE viewE nmaxE : Sexp) (dtO : Option DType)
@@ -125,87 +227,12 @@ def stepStatD (shE dataE selE axisE finE posE statE viewE nmaxE : Sexp) (dtO : O
       if !(flat.all dt.holds) then bad "value-not-in-dtype" else
       let data := dataFn sh flat
       let cfg : Cfg := ⟨st, fin, pos⟩
-      -- view
-      let viewO : Option (ViewKind × List VItem) := match viewE with
-        | .atom "N" => some (.none, fullView sh)
-        | .atom "E" => some (.ellipsis, fullView sh)
-        | .list (.atom "v" :: items) => do
-          let raw ← items.mapM rawItem?
-          some (.tuple, ← normView sh raw)
-        | _ => none
-      -- selection
-      let selO : Option SelM := match selE with
-        | .atom "N" => some .none
-        | .list (.atom "slice" :: ts) => do
-          let ts ← ts.mapM triple?
-          let sub ← normSlices sh ts
-          some (.slice sub)
-        | e => (sel? e).map fun s => .mask (s.eval sh data)
-      match viewO, selO with
+      match parseView sh viewE, parseSelM sh data selE with
       | some (vk, v), some sel =>
-        let nd := (viewShape' v).length
-        let axO : Option (AxisKind × List Bool) := match axisE with
-          | .atom "N" => some (.none, List.replicate nd true)
-          | .list (.atom "t" :: as) => do
-            let as ← as.mapM toNat?
-            if as.all (· < nd) then some (.tuple, redFlags nd as) else none
-          | e => do
-            let a ← e.toNat?
-            if a < nd then some (.int, redFlags nd [a]) else none
-        match axO with
+        match parseAxis (viewShape' v).length axisE with
         | some (ak, red) =>
           let impl := implStat cfg sh data sel vk v ak red nmax
-          let spec := specStat cfg sh data sel vk v red
-          let specIdx := allIdx spec.shape
-          let specCells := specIdx.map spec.cell
-          -- the kept values of every cell of the specification (`spec.cell k = reduce st (vals k)`,
-          -- theorem `spec_cell_reduce`): the acceptance radius is computed from them
-          let specVals := specIdx.map fun k => specCellVals cfg sh data sel vk v red k
-          let implCells := (allIdx impl.shape).map impl.cell
-          let implok := impl.shape == spec.shape && implCells == specCells
-          let py := pyResult? pyout
-          let ok := match py with
-            | some (psh, pcs) =>
-              psh == spec.shape && pcs.length == specVals.length &&
-                (pcs.zip specVals).all fun p => specAccept st p.2 p.1
-            | none => false
-          -- the model's prediction (exact arithmetic); where the model agrees with the specification
-          -- a python value that the specification accepts is echoed, so that comparison (a) is the
-          -- same acceptance rule
-          let shown := match py with
-            | some (psh, pcs) =>
-              if psh == impl.shape && impl.shape == spec.shape && pcs.length == implCells.length then
-                (pcs.zip (implCells.zip (specCells.zip specVals))).map fun p =>
-                  if p.2.1 == p.2.2.1 && specAccept st p.2.2.2 p.1 then p.1 else p.2.1
-              else implCells
-            | none => implCells
-          let size := prod sh
-          let nRed := (red.filter id).length
-          let chunked := vk == .none && ak == .tuple && nRed > 0 && nRed + 1 == sh.length &&
-            size > nmax && !sel.isSlice
-          let vsh := viewShape' v
-          let nanOk := codeNanAware cfg sel vk || noNanInScope data sel vk v
-          -- hypothesis of `stat_refines_spec_partial`
-          let inP := statP cfg sh data sel vk v red
-          let br :=
-            if !nanOk then "plain-nan" else if !inP then "outside-P" else
-            if chunked then (if sel.isNone then "chunked-nosel" else "chunked-masked")
-            else match sel with
-              | .none => "nosel"
-              | .slice _ => if vk == .none then "slice-shortcut" else "masked-slice-state"
-              | .mask _ => "masked"
-          let br2 := match sel with
-            | .none => ""
-            | _ =>
-              if chunked || (sel.isSlice && vk == .none) then "" else
-              let vm : Idx → Bool := fun j => inRange j vsh && sel.maskFn (viewIdx v j)
-              if !((allIdx vsh).any vm) then "-empty"
-              else if !allStep1 v then "-bail"
-              else if keptShape red vsh == [] then "-scalar"
-              else if subShape (bbox vsh vm) == vsh then "-fullbox" else "-pad"
-          let pre := if dt == .f8 then "" else dtypeName dt ++ ":"
-          driverResult (resultSexp impl.shape shown) ok implok inP
-            (pre ++ (if inP then br ++ br2 else br))
+          (judgeStat cfg sh data sel vk v ak red nmax dt impl pyout).render
         | none => bad "stat-axis"
       | _, _ => bad "stat-view-or-sel"
     | _, _, _, _, _, _, _ => bad "stat-args"
@@ -225,6 +252,52 @@ def powerset {α} : List α → List (List α)
   | x :: xs => let r := powerset xs; r ++ r.map (x :: ·)
 
 def dedupRat (xs : List Rat) : List Rat := xs.foldl (fun acc x => if acc.contains x then acc else acc ++ [x]) []
+
+/-- The oracle for one 1-d histogram call: `xs` = the selected (value, weight) pairs of the
+specification, `modelOut` = the model's output for the call. -/
+def judgeHist (r0 r1 : Rat) (n : Nat) (lg : Bool) (xs : List (Val × Rat)) (xdt wdt : DType)
+    (modelOut : HistOut) (pyout : Sexp) : Verdict :=
+  let lo := min r0 r1
+  let hi := max r0 r1
+  let kept := histKeep lo hi xs
+  let total := specHistTotal r0 r1 xs
+  let spec := specHist r0 r1 n lg xs
+  let edgeOf : Rat → Bool := if lg then onInteriorEdgeLog lo hi n else onInteriorEdgeLin lo hi n
+  let logOk := !lg || lo > 0
+  let edgeVals := if logOk then dedupRat ((kept.map (·.1)).filter edgeOf) else []
+  let specBin : Rat → Nat := if lg then specBinLog lo hi n else specBinLin lo hi n
+  -- admissible outcomes: every distinct interior-edge value goes to its bin or the one below
+  let admissible : List (List Rat) := (powerset edgeVals).map fun down =>
+    histOf (fun x => if down.contains x then specBin x - 1 else specBin x) n kept
+  match modelOut with
+  | .valueError =>
+    { impl := .atom "value-error", ok := pyout == .atom "value-error", implok := true, p := false,
+      br := "log-zero-range" }
+  | .bins model =>
+    let py : Option (List Rat) := do (← pyout.toList?).mapM rat?
+    -- finding F10e: `np.log10` of a float16 / float32 / 8- or 16-bit integer / bool array is evaluated in
+    -- half or single precision; the model (textbook log bins) does not describe that: outside `p`
+    let narrowLog := lg && [DType.f2, .f4, .i1, .u1, .i2, .u2, .b1].contains xdt
+    -- hypothesis of `hist_perbin_partial` (linear) / no value on an interior edge (log)
+    let inP := !narrowLog && if lg then edgeVals.isEmpty
+      else kept.isEmpty || lo == hi || histP lo hi (10 * ulp hi) n kept
+    let (tot, perbin, adm) := match py with
+      | some b => (b.length == n && b.sum == total, b == spec, logOk && admissible.contains b)
+      | none => (false, false, false)
+    let ok := if logOk then tot && perbin else py == some model
+    let implok := !logOk || (model.sum == total && (!inP || model == spec))
+    let shown := match py with
+      | some b => if !edgeVals.isEmpty && adm then b else model
+      | none => model
+    let br := (if xdt == .f8 && wdt == .f8 then "" else dtypeName xdt ++ "." ++ dtypeName wdt ++ ":") ++
+      (if lg then "log" else "lin") ++
+      (if kept.isEmpty then "-nokept" else if !logOk then "-negrange"
+       else if narrowLog then "-narrowlog"
+       else if !edgeVals.isEmpty then "-edge" else if lo == hi then "-zerowidth"
+       else if !inP then "-nearedge" else "")
+    { impl := .list (shown.map ofRat), ok := ok, implok := implok, p := inP, br := br,
+      extra := [.list [.atom "tot", ofBool tot], .list [.atom "bin", ofBool perbin],
+        .list [.atom "adm", ofBool adm]] }
 
 /-- `(sh data weights sel r0 r1 bins log [(xdtype wdtype)])`; the storage dtypes (default `f8`) only
 restrict the values that may occur. -/
@@ -247,44 +320,7 @@ def stepHistD (shE dataE wE selE r0E r1E nE logE : Sexp) (dtO : Option (DType ×
         let idxs := allIdx sh
         let xs : List (Val × Rat) := (idxs.zip ws).filterMap fun p =>
           if m p.1 then some (data p.1, p.2) else none
-        let lo := min r0 r1
-        let hi := max r0 r1
-        let kept := histKeep lo hi xs
-        let total := specHistTotal r0 r1 xs
-        let spec := specHist r0 r1 n lg xs
-        let edgeOf : Rat → Bool := if lg then onInteriorEdgeLog lo hi n else onInteriorEdgeLin lo hi n
-        let logOk := !lg || lo > 0
-        let edgeVals := if logOk then dedupRat ((kept.map (·.1)).filter edgeOf) else []
-        let specBin : Rat → Nat := if lg then specBinLog lo hi n else specBinLin lo hi n
-        -- admissible outcomes: every distinct interior-edge value goes to its bin or the one below
-        let admissible : List (List Rat) := (powerset edgeVals).map fun down =>
-          histOf (fun x => if down.contains x then specBin x - 1 else specBin x) n kept
-        match implHist r0 r1 n lg xs with
-        | .valueError =>
-          driverResult (.atom "value-error") (pyout == .atom "value-error") true false "log-zero-range"
-        | .bins model =>
-          let py : Option (List Rat) := do (← pyout.toList?).mapM rat?
-          -- hypothesis of `hist_perbin_partial` (linear) / no value on an interior edge (log)
-          let inP := if lg then edgeVals.isEmpty
-            else kept.isEmpty || lo == hi || histP lo hi (10 * ulp hi) n kept
-          let (tot, perbin, adm) := match py with
-            | some b => (b.length == n && b.sum == total, b == spec, logOk && admissible.contains b)
-            | none => (false, false, false)
-          let ok := if logOk then tot && perbin else py == some model
-          let implok := !logOk || (model.sum == total && (!inP || model == spec))
-          let shown := match py with
-            | some b => if !edgeVals.isEmpty && adm then b else model
-            | none => model
-          let br := (if xdt == .f8 && wdt == .f8 then "" else dtypeName xdt ++ "." ++ dtypeName wdt ++ ":") ++
-            (if lg then "log" else "lin") ++
-            (if kept.isEmpty then "-nokept" else if !logOk then "-negrange"
-             else if !edgeVals.isEmpty then "-edge" else if lo == hi then "-zerowidth"
-             else if !inP then "-nearedge" else "")
-          Sexp.toString (Sexp.list [.atom "r", .list [.atom "impl", .list (shown.map ofRat)],
-            .list [.atom "ok", ofBool ok], .list [.atom "implok", ofBool implok],
-            .list [.atom "p", ofBool inP], .list [.atom "br", .atom br],
-            .list [.atom "tot", ofBool tot], .list [.atom "bin", ofBool perbin],
-            .list [.atom "adm", ofBool adm]])
+        (judgeHist r0 r1 n lg xs xdt wdt (implHist r0 r1 n lg xs) pyout).render
       | _, _ => bad "hist-weights-or-sel"
     | _, _, _, _, _, _, _ => bad "hist-args"
 
@@ -343,6 +379,196 @@ def stepHist2 (args pyout : Sexp) : String :=
     | _, _, _, _, _, _, _ => bad "hist2-args"
   | _ => bad "hist2-arity"
 
+/-! ### sequences of calls on one dataset and shared subset-state objects (round 3) -/
+
+section Seq
+open GlueVerif.StatsSeq
+
+def optNat? : Sexp → Option (Option Nat)
+  | .atom "N" => some none
+  | e => e.toNat?.map some
+
+/-- Does the class of this subset state decorate `to_mask` with `@memoize`? (inequalities — also on
+pixel components —, and/or/xor, invert: yes; range, ROI, mask, slice: no) -/
+def memoised : Sexp → Bool
+  | .list (.atom k :: _) => ["gt", "lt", "ge", "le", "pixgt", "and", "or", "xor", "not"].contains k
+  | _ => false
+
+inductive PCall where
+  | stat (c : StatCall) (dt : DType)
+  | hist (c : HistCall) (xdt wdt : DType)
+
+def PCall.call : PCall → Call
+  | .stat c _ => .stat c
+  | .hist c _ _ => .hist c
+
+def parseCall (sh : List Nat) (dts : Array DType) (nsel : Nat) : Sexp → Option PCall
+  | .list [.atom "stat", attE, sidE, axisE, finE, posE, statE, viewE, nmaxE] => do
+    let att ← attE.toNat?
+    let dt ← dts[att]?
+    let sid ← optNat? sidE
+    if !(match sid with | some s => decide (s < nsel) | none => true) then none else
+    let (vk, v) ← parseView sh viewE
+    let (ak, red) ← parseAxis (viewShape' v).length axisE
+    some (.stat ⟨⟨← stat? statE, ← finE.toBool?, ← posE.toBool?⟩, att, sid, vk, v, ak, red,
+      ← nmaxE.toNat?⟩ dt)
+  | .list [.atom "hist", attE, wattE, sidE, r0E, r1E, nE, logE] => do
+    let att ← attE.toNat?
+    let xdt ← dts[att]?
+    let watt ← optNat? wattE
+    let wdt ← match watt with | some w => dts[w]? | none => some .f8
+    let sid ← optNat? sidE
+    if !(match sid with | some s => decide (s < nsel) | none => true) then none else
+    some (.hist ⟨att, watt, sid, ← rat? r0E, ← rat? r1E, ← nE.toNat?, ← logE.toBool?⟩ xdt wdt)
+  | _ => none
+
+/-- The filter of a statistic call removes an element that its selection contains — the situation
+in which an in-place `keep &= …` on the caller's mask would be visible to later calls. -/
+def dropsSelected (sh : List Nat) (D : Nat → Idx → Val) (S : Nat → SObj) : PCall → Bool
+  | .stat c _ =>
+    (allIdx sh).any fun i =>
+      (selOf S c.sid).maskFn i &&
+        !((!c.cfg.finite || (D c.att i).isFin) && (!c.cfg.positive || (D c.att i).isPos))
+  | _ => false
+
+def PCall.sid : PCall → Option Nat
+  | .stat c _ => c.sid
+  | .hist c _ _ => c.sid
+
+def outSexpFallback : Out → Sexp
+  | .res r => resultSexp r.shape ((allIdx r.shape).map r.cell)
+  | .hist (.bins b) => .list (b.map ofRat)
+  | .hist .valueError => .atom "value-error"
+
+/-- `(seq (sh comps sels calls) pyout)`: one dataset (`comps` = `(dtype flat)` per attribute), a list
+of subset-state objects (`sels` = `(att sel)`: inequalities refer to attribute `att`) shared between
+the calls, and calls `(stat att sid axis finite positive stat view nmax)` /
+`(hist att watt sid r0 r1 bins log)` executed in order on the same objects.
+`pyout = (outs masks datas)`: the result of every call, then — after all calls — for every state
+`(to_mask(data, None) , get_mask(state))` and every component's stored array.
+
+* `impl`  : the heap program `StatsSeq.runSeq` from the initial heap (results, final masks through
+            `toMaskH` on the final heap, final value arrays).
+* `ok`    : every call is judged on its own against the specification on the ORIGINAL data and
+            selection, and the final masks / arrays must be the original ones. -/
+def stepSeq (args pyout : Sexp) : String :=
+  match args with
+  | .list [shE, compsE, selsE, callsE] =>
+    match shE.toNats?, compsE.toList?, selsE.toList?, callsE.toList? with
+    | some sh, some compsL, some selsL, some callsL =>
+      let compsO : Option (List (DType × List Val)) := compsL.mapM fun e => match e with
+        | .list [dtE, flatE] => do some (← dtype? dtE, ← vals? flatE)
+        | _ => none
+      match compsO with
+      | none => bad "seq-comps"
+      | some comps =>
+        if !(comps.all fun c => c.2.all c.1.holds) then bad "value-not-in-dtype" else
+        let fns : Array (Idx → Val) := (comps.map fun c => dataFn sh c.2).toArray
+        let dts : Array DType := (comps.map (·.1)).toArray
+        let n := comps.length
+        let D : Nat → Idx → Val := fun a => fns.getD a (fun _ => .nan)
+        let selsO : Option (List SObj) := selsL.mapM fun e => match e with
+          | .list [attE, selE] => do
+            let a ← attE.toNat?
+            if a ≥ n then none else
+            match ← parseSelM sh (D a) selE with
+            | .none => none
+            | .slice vs => some ⟨.slice vs, false⟩
+            | .mask m => some ⟨.mask m, memoised selE⟩
+          | _ => none
+        match selsO with
+        | none => bad "seq-sels"
+        | some sobjs =>
+          let sarr := sobjs.toArray
+          let nsel := sobjs.length
+          let S : Nat → SObj := fun i => sarr.getD i ⟨.mask fun _ => false, false⟩
+          match callsL.mapM (parseCall sh dts nsel) with
+          | none => bad "seq-calls"
+          | some pcalls =>
+            let weightsOk := pcalls.all fun pc => match pc with
+              | .hist c _ _ => (match c.watt with
+                | some w => (allIdx sh).all fun i => (D w i).isFin
+                | none => true)
+              | _ => true
+            if !weightsOk then bad "seq-weights-not-finite" else
+            let pyParts : Option (List Sexp × List Sexp × List Sexp) := match pyout with
+              | .list [.list o, .list m, .list d] => some (o, m, d)
+              | _ => none
+            let pyOuts : List Sexp := match pyParts with | some p => p.1 | none => []
+            -- the model: the heap program from the initial heap
+            let run := runSeq false S sh (initHeap D n) (pcalls.map PCall.call)
+            let idxs := allIdx sh
+            -- every call judged on its own, against the original data / selection
+            let verdicts : List Verdict := (pcalls.zip run.2).zipIdx.map fun ((pc, out), k) =>
+              let pyk := pyOuts.getD k (.atom "missing")
+              match pc, out with
+              | .stat c dt, .res r =>
+                judgeStat c.cfg sh (D c.att) (selOf S c.sid) c.vk c.v c.ak c.red c.nmax dt r pyk
+              | .hist c xdt wdt, .hist o =>
+                let m : Idx → Bool := (selOf S c.sid).maskFn
+                let xs := histPairs sh (D c.att) (c.watt.map D) m
+                judgeHist c.r0 c.r1 c.n c.log xs xdt wdt o pyk
+              | _, o => { impl := outSexpFallback o, ok := false, implok := false, p := true,
+                          br := "mismatch" }
+            -- final state: masks (both call forms of `to_mask`, whole array) and stored arrays
+            let fin := (List.range nsel).foldl (fun (acc : Heap × List (List Bool × List Bool)) s =>
+              let a := toMaskH S acc.1 ⟨s, .pos, .none, fullView sh⟩
+              let b := toMaskH S a.1 ⟨s, .kw, .none, fullView sh⟩
+              (b.1, acc.2 ++ [(idxs.map (a.1.bools a.2), idxs.map (b.1.bools b.2))])) (run.1, [])
+            let modelMasks := fin.2
+            let specMasks := (List.range nsel).map fun s =>
+              let m := idxs.map (S s).sel.toSelM.maskFn
+              (m, m)
+            let modelData := (List.range n).map fun a => idxs.map (fin.1.vals a)
+            let specData := (List.range n).map fun a => idxs.map (D a)
+            let masksSexp (ms : List (List Bool × List Bool)) : Sexp :=
+              .list (ms.map fun p => .list [ofBools p.1, ofBools p.2])
+            let dataSexp (ds : List (List Val)) : Sexp := .list (ds.map fun d => .list (d.map ofVal))
+            let pyMasksOk := match pyParts with
+              | some p => Sexp.list p.2.1 == masksSexp specMasks
+              | none => false
+            let pyDataOk := match pyParts with
+              | some p => Sexp.list p.2.2 == dataSexp specData
+              | none => false
+            let callsOk := verdicts.all (·.ok) && pyOuts.length == pcalls.length
+            let ok := callsOk && pyMasksOk && pyDataOk
+            let implok := verdicts.all (·.implok) && modelMasks == specMasks &&
+              dataSexp modelData == dataSexp specData
+            let inP := verdicts.all (·.p)
+            let firstBad := (verdicts.zipIdx.find? fun p => !p.1.ok).map (·.2)
+            let badAtom : Sexp := match firstBad with
+              | some k => ofNat k
+              | none => if !pyMasksOk then .atom "final-mask" else if !pyDataOk then .atom "final-data"
+                        else .atom "none"
+            let badBr : Sexp := match firstBad with
+              | some k => .atom ((verdicts.map (·.br)).getD k "-")
+              | none => .atom "-"
+            -- coverage: is there a call whose filter drops a selected element, followed by another
+            -- call on the same state object?
+            let pcs := pcalls.zipIdx
+            let hazard := pcs.any fun (pi, i) =>
+              pi.sid.isSome && dropsSelected sh D S pi &&
+                pcs.any fun (pj, j) => decide (i < j) && pj.sid == pi.sid
+            let shared := pcs.any fun (pi, i) =>
+              pi.sid.isSome && pcs.any fun (pj, j) => decide (i < j) && pj.sid == pi.sid
+            let memoShared := pcs.any fun (pi, i) =>
+              (match pi.sid with | some s => (S s).memo | none => false) &&
+                pcs.any fun (pj, j) => decide (i < j) && pj.sid == pi.sid
+            let hasHist := pcalls.any fun pc => match pc with | .hist .. => true | _ => false
+            let anyChunk := verdicts.any fun v => (v.br.splitOn "chunked").length > 1
+            let br := "seq" ++ (if hazard then (if memoShared then "-hazard-memo" else "-hazard")
+                else if shared then "-shared" else "-indep") ++
+              (if anyChunk then "-chunked" else "") ++ (if hasHist then "-hist" else "") ++
+              (if inP then "" else "-outsideP")
+            ({ impl := .list [.list (verdicts.map (·.impl)), masksSexp modelMasks, dataSexp modelData],
+               ok := ok, implok := implok, p := inP, br := br,
+               extra := [.list [.atom "bad", badAtom], .list [.atom "badbr", badBr],
+                 .list [.atom "hazard", ofBool hazard]] } : Verdict).render
+    | _, _, _, _ => bad "seq-args"
+  | _ => bad "seq-arity"
+
+end Seq
+
 def step (line : String) : String :=
   match Sexp.parse line with
   | some (.list [.atom "stat", args, pyout]) => stepStat args pyout
@@ -350,6 +576,7 @@ def step (line : String) : String :=
   | some (.list [.atom "hist", args, pyout]) => stepHist args pyout
   | some (.list [.atom "histstate", args, pyout]) => stepHist args pyout
   | some (.list [.atom "hist2", args, pyout]) => stepHist2 args pyout
+  | some (.list [.atom "seq", args, pyout]) => stepSeq args pyout
   | _ => bad "unknown-family"
 
 def main : IO Unit := driverLoop step
